@@ -10,7 +10,15 @@ package datatransfer
 //@   pure VoucherResults, ReceivedCidsTotal, QueuedCidsTotal, SentCidsTotal, Stages, DataLimit
 //@   pure RequiresFinalization, InitiatorPaused, ResponderPaused, BothPaused, SelfPaused
 
+//@ interface Message
+//@   pure IsRequest, IsRestart, IsNew, IsUpdate, IsPaused, IsCancel, TransferID
+//@ interface Request
+//@   pure IsPull, IsVoucher, VoucherType, Voucher, TypedVoucher, BaseCid, Selector, IsRestartExistingChannelRequest, RestartChannelId
+//@ interface Response
+//@   pure IsValidationResult, IsComplete, Accepted, VoucherResultType, VoucherResult, EmptyVoucherResult
+
 //@ func (datatransfer.ValidationResult).LeaveRequestPaused {C08,C11}
+//@   pure
 //@   requires [snapshot] chst != nil
 //@   ensures [resume-rule] result == (vr.ForcePause ||
 //@       (vr.RequiresFinalization && chst.Status().InFinalization()) ||
